@@ -1021,7 +1021,14 @@ func (c *StructConverter) To(obj Object) (interface{}, error) {
 	case *Proxy:
 		// Return the object wrapped by the proxy
 		if c.isValueType {
-			return reflect.ValueOf(obj.obj).Elem().Interface(), nil
+			ptr := reflect.ValueOf(obj.obj)
+			if ptr.Kind() != reflect.Ptr {
+				return obj.obj, nil // the proxy wraps a struct value already
+			}
+			if ptr.IsNil() {
+				return nil, errz.TypeErrorf("type error: cannot use a nil %s as a %s value", obj.typ.Name(), c.typ)
+			}
+			return ptr.Elem().Interface(), nil
 		}
 		return obj.obj, nil
 	case *Map:
